@@ -270,9 +270,96 @@ pub fn exec_par(w: &mut World, st: &Step) -> bool {
             }
         }
     }
+    // Known finding KF02: a discard that overlaps in time with a write_at to
+    // the same guest cluster frees the host cluster under the write; the
+    // write's data then lands in a cluster that may already belong to someone
+    // else.  Histories that contain such a pair get their own signature.
+    let mut racy_pair = false;
+    for d in hist.iter().filter(|h| matches!(h.kind, HKind::Discard)) {
+        if let Some((a, b)) = w.model.discard_bounds(d.off, d.len) {
+            for wr in hist.iter().filter(|h| matches!(h.kind, HKind::Write { .. })) {
+                if wr.len == 0 {
+                    continue;
+                }
+                let (wa, wb) = (wr.off / cs, (wr.off + wr.len - 1) / cs + 1);
+                let overlap_space = wa < b && a < wb;
+                let overlap_time = wr.inv < d.ret && d.inv < wr.ret;
+                if overlap_space && overlap_time {
+                    racy_pair = true;
+                }
+            }
+        }
+    }
+    if racy_pair {
+        w.stat("batches_with_discard_racing_write");
+        // the damage (data written into a freed cluster) may surface later
+        w.kf02_tainted = true;
+        crate::props::KF02_TAINT.with(|t| t.set(true));
+    }
+    let kf = if w.kf02_tainted { "/discard-racing-write-same-cluster" } else { "" };
+    // Known finding KF03: the mapping of a freshly allocated cluster is
+    // visible before the cluster has been zeroed / written, so a read that
+    // overlaps in time with the first write to a cluster can return the stale
+    // bytes of the (re-used) host cluster.  `kf03(g)` tells whether guest
+    // cluster g saw such a read/first-write overlap in this batch.
+    let kf03 = |w: &World, g: u64| -> bool {
+        let fresh = w.model.class_of(g) != CClass::Data
+            || hist.iter().any(|h| {
+                matches!(h.kind, HKind::Discard)
+                    && w.model
+                        .discard_bounds(h.off, h.len)
+                        .map(|(a, b)| g >= a && g < b)
+                        .unwrap_or(false)
+            });
+        if !fresh {
+            return false;
+        }
+        let on = |h: &HOp| h.len > 0 && h.off / cs <= g && (h.off + h.len - 1) / cs >= g;
+        hist.iter().any(|r| {
+            r.len > 0
+                && on(r)
+                && !matches!(r.kind, HKind::Write { .. } | HKind::Discard | HKind::Other)
+                && hist.iter().any(|wr| {
+                    matches!(wr.kind, HKind::Write { .. })
+                        && on(wr)
+                        && wr.inv < r.ret
+                        && r.inv < wr.ret
+                })
+        })
+    };
+    // Known finding KF04 (same root cause as KF02, read side): a read that
+    // overlaps in time with a discard of the same guest cluster may be served
+    // from the host cluster after it was freed and re-used by someone else.
+    let kf04 = |w: &World, g: u64| -> bool {
+        hist.iter().any(|d| {
+            matches!(d.kind, HKind::Discard)
+                && w.model
+                    .discard_bounds(d.off, d.len)
+                    .map(|(a, b)| g >= a && g < b)
+                    .unwrap_or(false)
+                && hist.iter().any(|r| {
+                    matches!(r.kind, HKind::Read { .. })
+                        && r.len > 0
+                        && r.off / cs <= g
+                        && (r.off + r.len - 1) / cs >= g
+                        && r.inv < d.ret
+                        && d.inv < r.ret
+                })
+        })
+    };
     // sectors touched by writes / discards
     let mut touched: BTreeSet<u64> = BTreeSet::new();
     let mut written_secs: BTreeSet<u64> = BTreeSet::new();
+    let mut cand_clusters: BTreeSet<u64> = w.model.touched_clusters().into_iter().collect();
+    for h in &hist {
+        if let HKind::Write { .. } = &h.kind {
+            if h.len > 0 {
+                for g in (h.off / cs)..=((h.off + h.len - 1) / cs) {
+                    cand_clusters.insert(g);
+                }
+            }
+        }
+    }
     for h in &hist {
         match &h.kind {
             HKind::Write { .. } => {
@@ -283,15 +370,18 @@ pub fn exec_par(w: &mut World, st: &Step) -> bool {
                 w_mark(w, h.off, h.len);
             }
             HKind::Discard => {
-                for g in w.model.discard_clusters(h.off, h.len) {
-                    // only sectors that can change matter: those with content
-                    for s in 0..cs / 512 {
-                        let sec = g * (cs / 512) + s;
-                        if sec * 512 < vsize {
-                            touched.insert(sec);
+                // only clusters that can change matter: those with content in
+                // the model or written in this batch
+                if let Some((a, b)) = w.model.discard_bounds(h.off, h.len) {
+                    for g in cand_clusters.range(a..b) {
+                        for s in 0..cs / 512 {
+                            let sec = g * (cs / 512) + s;
+                            if sec * 512 < vsize {
+                                touched.insert(sec);
+                            }
                         }
+                        w_mark(w, g * cs, cs);
                     }
-                    w_mark(w, g * cs, cs);
                 }
             }
             HKind::Read { .. } => w_mark(w, h.off, h.len),
@@ -333,7 +423,7 @@ pub fn exec_par(w: &mut World, st: &Step) -> bool {
                                 None => {
                                     w.viol(
                                         &["C06"],
-                                        "garbage-after-concurrent-batch",
+                                        &format!("garbage-after-concurrent-batch{kf}"),
                                         format!(
                                             "{what}: guest sector {sec} holds {} after the batch",
                                             content::describe(bytes)
@@ -385,7 +475,12 @@ pub fn exec_par(w: &mut World, st: &Step) -> bool {
                     });
                 }
                 HKind::Discard => {
-                    if w.model.discard_clusters(h.off, h.len).contains(&g) {
+                    if w
+                        .model
+                        .discard_bounds(h.off, h.len)
+                        .map(|(a, b)| g >= a && g < b)
+                        .unwrap_or(false)
+                    {
                         subs.push(Sub {
                             op: if class0 == CClass::Data && h.ok {
                                 SubOp::Zero
@@ -407,9 +502,16 @@ pub fn exec_par(w: &mut World, st: &Step) -> bool {
                             ret: h.ret,
                         }),
                         None => {
+                            let kf = if kf03(w, g) {
+                                "/read-racing-first-write-to-cluster"
+                            } else if kf04(w, g) {
+                                "/read-racing-discard-same-cluster"
+                            } else {
+                                kf
+                            };
                             w.viol(
                                 &["C06"],
-                                "concurrent-read-garbage",
+                                &format!("concurrent-read-garbage{kf}"),
                                 format!(
                                     "{what}: client {} {} returned {} for guest sector {sec}",
                                     h.client,
@@ -443,9 +545,32 @@ pub fn exec_par(w: &mut World, st: &Step) -> bool {
                     h.client, h.inv, h.ret, h.desc, h.ok
                 ));
             }
+            // a read that returned a value nobody wrote to this sector
+            let explained: Vec<u64> = subs
+                .iter()
+                .filter_map(|s| match s.op {
+                    SubOp::Write(v) | SubOp::MaybeWrite(v) => Some(v),
+                    _ => None,
+                })
+                .chain([init, 0])
+                .collect();
+            let alien_read = subs.iter().any(|s| match s.op {
+                SubOp::Read(v) => !explained.contains(&v) && s.inv < fin_tick,
+                _ => false,
+            });
+            let kf = if alien_read && kf03(w, g) {
+                "/read-racing-first-write-to-cluster"
+            } else if alien_read && kf04(w, g) {
+                "/read-racing-discard-same-cluster"
+            } else {
+                kf
+            };
             w.viol(
                 &["C06"],
-                &format!("not-linearizable/{}", lin_class(init, &subs, final_val.get(&sec).copied())),
+                &format!(
+                    "not-linearizable/{}{kf}",
+                    lin_class(init, &subs, final_val.get(&sec).copied())
+                ),
                 format!(
                     "{what}: guest sector {sec} (cluster {g}) init id={init:#x} sub-ops {:?}\nhistory:\n{}",
                     subs.iter().map(|s| format!("{:?}@[{},{}]", s.op, s.inv, s.ret)).collect::<Vec<_>>(),
